@@ -1,12 +1,56 @@
+claim("C01", "edge-fact dominance over SSA (linear normal form with floor-division atoms) + term provenance of weight updates",
+      "Thin: threshold bounds dominate the parameter store; precommit/prevote increments are control-dependent on the quorum and lower-bound facts and use the voter's weight in the parameters at the voted block's own height; max heights are first-quorum entries; the verifier rejects headers the window flags. Each clause is necessary for finality safety; the quorum-intersection argument over fork histories is not decided.",
+      "Counting arithmetic, getHeightNotPrevoted and validator-set dynamics are not decided.", "DESIGN.md §4 C01")
+claim("C02", "effect analysis over the call graph (no clock/random/env/goroutine/map-order) + per-height parameter provenance + schema tables",
+      "Determinism of the BFT height computation for every reachable function, the per-height parameter lookup of every weight and threshold, update order, window length and the codec tables of the stored state. Agreement with LIP-0058 on concrete chains is not decided.",
+      "No independent LIP-0058 transcription is run; value-level behaviour is not decided.", "DESIGN.md §4 C02")
+claim("C03", "reject-edge tables by edge-fact dominance, callee-error propagation, who-may-write, field-coverage tables, capture analysis",
+      "Every success exit of the verifier and every path to AddBlock is dominated by each validity rule's passing edge (11 header rules, ABI steps, validatorsHash, event count, event root, state root via Commit); stateless validation dominates every apply call; every signed header field is consumed; nothing persistent/evented happens before acceptance except the recorded findings. Sufficiency of the rules is not decided.",
+      "Slot arithmetic, signature maths and application behaviour are not decided; three known findings are listed in known_findings.json.", "DESIGN.md §4 C03")
 claim("C04", "who-may-call + edge-fact dominance (SSA, linear comparison normal form) + phi-monotonicity",
-      "For every caller and every path: Chain.RemoveBlock is reachable only under the dominating fact height > stored finalized height on the cached tip; the finalized marker has one writer fed by an argument proved monotone on every phi edge; the finalize event is published iff raised and only after the commit. Breaking any of these breaks the property for some block sequence; the arithmetic of the precommitted height is not decided.",
+      "For every caller and every path: Chain.RemoveBlock is reachable only under the dominating fact height > stored finalized height on the cached tip; the finalized marker has one writer fed by an argument proved monotone on every phi edge; the finalize event is published iff raised and only after the commit. The arithmetic of the precommitted height is not decided.",
       "Assumes GetFinalizedHeight returns the stored marker and ignores uint32 wrap-around.", "DESIGN.md §4 C04")
-for pid in ["C01","C02","C03","C06","C07","C08","C09","C11","C12","C14","C15","C16","C17","C18","C19","C20"]:
-    na(pid, "check not built yet in this round (planned, see DESIGN.md §4); not claimed until its rules run clean")
 claim("C05", "key-family symmetry tables + dominance chain + edge-fact classification of diff writes (SSA terms)",
-      "Every key family saveBlock sets is deleted by removeBlock under the same key expression and no stronger guard; the revert diff is stored/read/deleted under one key in a dominance-ordered chain; cacheDB.commit's three diff classes are emitted under exactly their defining edge facts and RevertDiff is the inverse table; init is a private copy. Each is necessary for byte-exact restoration; equality of the resulting database is not decided.",
+      "Every key family saveBlock sets is deleted by removeBlock under the same key expression and no stronger guard; pruning deletes only at or below finality; the revert diff is stored/read/deleted under one key in a dominance-ordered chain; cacheDB.commit's three diff classes are emitted under exactly their defining edge facts and RevertDiff is the inverse table; init is a private copy. Equality of the resulting database is not decided.",
       "Does not execute the code: byte equality after apply/delete sequences and the application-state side are not decided.", "DESIGN.md §4 C05")
+claim("C06", "edge-fact dominance + result-used-under-error + value provenance + comparator-direction agreement",
+      "Accepting exits of the aggregate-commit verifier are dominated by every bound (incl. the next-parameter bound on the success edge of its lookup), certificate pieces come from the node's own header and that height's parameters, keys/weights stay aligned with the aggregation bits, all BLS-key comparators agree, the single-commit validator adds only after its checks and never accepts, creator and verifiers hash the same message. BLS soundness is not decided.",
+      "Cryptographic soundness and weight arithmetic are trusted/value-level.", "DESIGN.md §4 C06")
+claim("C07", "order-domain abstract interpretation of comparison-only kernels (exhaustive over weak orderings) + dominance ordering",
+      "The contradiction kernel is proved comparison-only and its table over every weak ordering of the six header integers equals the LIP-0014 specification (symmetric, false for different generators); the three priority predicates equal the strict lexicographic order; field predicates equal their tables; process() consults them in LIP-0014 order; the window scan sees the most recent header first. Exhaustive for the abstract domain, hence all uint32 inputs up to wrap-around. History-level clauses are not decided.",
+      "uint32 wrap-around is outside the abstract domain.", "DESIGN.md §4 C07")
+claim("C08", "schema-table agreement (struct tags vs generated Encode/Decode call tables) + dominance in the primitives",
+      "For every generated codec (>100): writer and both readers handle exactly the tagged fields, ascending, with dual primitives, correct strict flags and propagated errors; DecodeStrict rejects trailing bytes; primitive duals agree on wire type and framing; varint/bool/string acceptance exits are dominated by the canonical-form checks; IDs are Hash(Encode()); signing structs are sub-schemas. Value-level round trips are not decided.",
+      "Varint arithmetic at boundaries, NFC library behaviour and the Lisk32 checksum are not decided.", "DESIGN.md §4 C08")
+claim("C11", "must-pass-through path search + save/load field tables",
+      "Only the persistence clause and handle coherence: every mutation of root/size/appendPath reaches the persist call on all successful paths, the persisted record and the loader agree on fields and key, node-index prefixes agree, and non-persisted derived state is invalidated on append. All root/proof/witness equalities are NOT decided (known gap G1).",
+      "The core of C11 (tree arithmetic) is out of reach of this technique; the check passes while gap G1 (CalculateRootFromAppendPath's append path) exists.", "DESIGN.md §4 C11, §5")
+claim("C12", "typestate of key arguments (origin analysis) + edge-fact dominance + sentinel-producer table + must-pass-through",
+      "Every key handed to overlay or store is the view's prefixed key; the limit never truncates a filtered scan; cache.set/add/del follow the write-through facts; the not-in-database sentinel is preserved by every producer; merge order/shadowing/limit-after-sort; every pebble iterator is closed on all paths. Equivalence with a sorted-map model is not decided.",
+      "Bound inclusivity and pebble scan semantics are value-level.", "DESIGN.md §4 C12")
 claim("C13", "who-may-call/who-may-write over the call graph + value identity of the batch + instruction dominance",
-      "On every path of the block pipeline one batch value carries consensus-store commit, revert diff, block, indexes and finalized marker into exactly one synced pebble Apply, staged before and cached after it; no other chain-DB write is reachable; restart derives the tip from the height index. A violation of any clause yields a crash point with a torn state; pebble's own atomicity is trusted.",
+      "On every path of the block pipeline one batch value carries consensus-store commit, revert diff, block, indexes and finalized marker into exactly one synced pebble Apply, staged before and cached after it; no other chain-DB write is reachable; restart derives the tip from the height index. pebble's own atomicity is trusted.",
       "DB instances are abstracted to packages (no points-to); the ABI boundary (application store) is cut by design.", "DESIGN.md §4 C13")
+claim("C14", "lock-set dataflow with parameter-relative lock paths and callee summaries + must-pass-through + edge facts",
+      "No re-entrant acquire/lock-order cycle/blocking wait under the pool or per-sender mutex on any path (incl. Add→evict→remove chains), index co-update on all paths, the replaced ID is consumed, bounds on the skip-eviction and per-sender edges, all-or-nothing promotion, heap orderings. Gap-freeness of nonce runs is not decided.",
+      "Mutex instances are identified by access path; fee arithmetic and fairness are not decided.", "DESIGN.md §4 C14")
+claim("C15", "instruction dominance + value provenance (SSA terms) + call-sequence mirror",
+      "Persist-before-publish ordering, exact provenance of MaxHeightGenerated/MaxHeightPrevoted/Height/PreviousBlockID, monotone persisted height, seal derives fields with the validator's functions and signs last, selection guards. One known finding (generator ignores next validators).",
+      "Selection optimality and real restarts are not decided.", "DESIGN.md §4 C15")
+claim("C16", "must-pass-through and dominance in ExecuteTransaction + constant-discriminator table + sentinel agreement + typestate",
+      "Snapshot protocol on every path (restore iff the command failed, same id, release on all non-invalid exits, standard event after the restore with the right flag), revertible/unrevertible discriminator, delete sentinel agrees with the trie's removal test, one batch/one write in Commit/revert with root check before the write, recovery path never dereferences a nil execution context. Root equality is not decided.",
+      "Module behaviour and hash equalities are not decided.", "DESIGN.md §4 C16")
+claim("C17", "typestate of the pending-response table: dominance + must-pass-through path search + lock-set dataflow",
+      "Register-before-send, release on every exit with the same key, nothing blocking under resMu, bounded select and retry loop, ID correlation end to end, both IDs codec field 1.",
+      "libp2p stream behaviour and timing are not modelled.", "DESIGN.md §4 C17")
+claim("C18", "edge-fact dominance + exhaustive truth-table interpretation of the gate predicate + who-may-call + key-function agreement",
+      "Gates consult the predicate; the predicate's truth table equals the specification; accumulation, ban threshold, expiry sweep under their defining facts; ban implies disconnect with an address that carries the peer id; one key function for the maps; penalty coverage and conditionality.",
+      "libp2p honouring the gater and wall-clock behaviour are not decided.", "DESIGN.md §4 C18")
+claim("C19", "running-extremum shape check + schema pairs + must-pass-through + constant propagation of restore flags",
+      "Filter chain and argmax shape, RPC schema pairs, malformed-request edges reach the ban, served segment bounds/order, fast-sync guard/restore/ban protocol with the temp-table flags on the restore path, search floor, downloader order.",
+      "Convergence and behaviour against stalling peers are not decided.", "DESIGN.md §4 C19")
+claim("C20", "lock-set dataflow (may/must) with callee summaries + field-guard consistency + closure-capture analysis",
+      "For every function of the chain/consensus/event/db/router packages: no re-entrant acquire, acyclic lock order, no unbounded wait under a lock (three known findings), lock-protected fields accessed under their lock everywhere, no racy captured write in goroutine bodies, send/close exclusion.",
+      "Happens-before through channels is not modelled; mutex instances are identified by access path.", "DESIGN.md §4 C20")
+na("C09", "check still being completed in this round (panic reachability with compiler bounds report; the reviewed residual table is not final); not claimed until it runs clean")
 na("C10", "history independence, LIP-0039 agreement and proof soundness are equalities between hash computations over all maps/update sequences; no structural necessary condition worth claiming (panic-freedom of Verify is under C09, the delete sentinel under C16)")
